@@ -588,8 +588,123 @@ def part_transparency(ctx, k):
                    if i < len(rb) else None})
 
 
+class FakeWebSocket:
+    """What the websocket transport of engine.io is handed by the web
+    server: wait() returns the next frame of the client (str or bytes; None
+    when the client has closed), send() takes the server's frames."""
+
+    def __init__(self):
+        import queue
+        self.incoming = queue.Queue()
+        self.sent = []
+        self.closed = False
+
+    def wait(self):
+        return self.incoming.get(timeout=30)
+
+    def send(self, data):
+        self.sent.append(data)
+
+    def close(self):
+        self.closed = True
+
+
+def run_websocket_conversation(cfg, variant, frames, k):
+    """One application client over the (real) websocket handler of
+    engine.io's Socket - the code path the instrumentation wraps to count
+    bytes - on a plain or an instrumented threaded server."""
+    import time
+    from engineio import socket as eio_socket
+    cfg = copy.deepcopy(cfg)
+    run = Instrumented(cfg, False, 'production' if variant.endswith('prod')
+                       else 'development', read_only=False,
+                       instrument=variant != 'plain')
+    r = run.r
+    d = r.d
+    log = []
+    try:
+        def on_ev(sid, *args):
+            log.append(['event', 'ev', core.jsonable(list(args))])
+            return args[0] if args else None
+        d.sio.on('ev', on_ev, namespace='/')
+        d.sio.on('disconnect', lambda sid, reason: log.append(
+            ['disconnect', reason]), namespace='/')
+        eio_sid = d.eio.generate_id()
+        s = eio_socket.Socket(d.eio, eio_sid)
+        s.queue.join = lambda: None
+        d.eio.sockets[eio_sid] = s
+        d.eio._trigger_event('connect', eio_sid, {'verif.transport': 1},
+                             run_async=False)
+        ws = FakeWebSocket()
+        th = threading.Thread(target=lambda: s._websocket_handler(ws),
+                              daemon=True)
+        th.start()
+        want_frames = 0
+        for f, nreply in frames:
+            ws.incoming.put(f)
+            want_frames += nreply
+            t0 = time.time()
+            while len(ws.sent) < want_frames and time.time() - t0 < 8 and \
+                    th.is_alive():
+                time.sleep(0.002)
+        time.sleep(0.02)
+        ws.incoming.put(None)
+        th.join(15)
+        d.join()
+        # (session ids differ between the two runs)
+        out = []
+        for x in ws.sent:
+            if isinstance(x, str) and x.startswith('40{'):
+                x = '40{"sid":<sid>}'
+            out.append(x if isinstance(x, str) else {'$bytes': x.hex()})
+        return {'frames_to_client': out, 'handler_log': log,
+                'handler_thread_alive': th.is_alive()}
+    finally:
+        run.close()
+
+
+def part_websocket(ctx, k):
+    rng = ctx.case_rng(k)
+    cfg = S.default_config(kind='sync', served=[], coroutines=False,
+                           async_handlers=rng.random() < 0.5)
+    blob = bytes(rng.randrange(256) for _ in range(rng.randint(1, 20)))
+    conv = [('40', 1)]
+    for i in range(rng.randint(1, 3)):
+        kind = rng.choice(['text', 'binary', 'binary_ack'])
+        if kind == 'text':
+            conv.append(('42%d["ev","hello %d"]' % (i + 1, i), 1))
+        elif kind == 'binary':
+            conv.append(('451-["ev",{"_placeholder":true,"num":0}]', 0))
+            conv.append((blob, 0))
+        else:
+            # event with id whose handler returns the bytes it was given
+            conv.append(('451-%d["ev",{"_placeholder":true,"num":0}]' %
+                         (i + 1), 0))
+            conv.append((blob, 2))
+    variant = rng.choice(['admin_dev', 'noadmin_dev', 'noadmin_prod'])
+    a = run_websocket_conversation(cfg, 'plain', conv, k)
+    b = run_websocket_conversation(cfg, variant.replace('admin_', 'noadmin_')
+                                   if variant.startswith('admin') else
+                                   variant, conv, k)
+    ctx.count('websocket_conversations')
+    ctx.count('websocket_frames_compared', len(a['frames_to_client']))
+    if a != b:
+        ctx.violation(None, 'an application client on the websocket '
+                      'transport is served differently by a plain and an '
+                      'instrumented (%s) server' % variant,
+                      {'part': 'websocket', 'case_index': k,
+                       'variant': variant,
+                       'client_frames': core.jsonable([f for f, _ in conv]),
+                       'plain': a, 'instrumented': b})
+        return
+    if not a['handler_log'] or a['handler_thread_alive']:
+        ctx.count('websocket_conversations_not_completed')
+        return
+    ctx.case(('W', variant, tuple(type(f).__name__ for f, _ in conv)), None)
+
+
 PARTS = [('A', part_auth, 3), ('B', part_readonly, 2),
-         ('C', part_transparency, 5)]
+         ('C', part_transparency, 5), ('W', part_websocket, 1)]
 
 
 def run_case(ctx, k):
@@ -631,6 +746,7 @@ def run(ctx):
     ctx.require('membership_probes', 20)
     ctx.require('admin_requests_that_must_be_inert', 10)
     ctx.require('control_requests_with_effect', 3)
+    ctx.require('websocket_conversations', 5)
     ctx.require('transparency_scripts', 20)
     ctx.require('transparency_runs_with_admin_connected', 5)
     ctx.require('transparency_frames_compared', 200)
